@@ -6,9 +6,13 @@
 (*       i in lo..hi   i in lo..=hi   i in 0..len(A)   a in A                  *)
 (*       (a, i) in enumerate(A)   r in M followed by e in r                    *)
 (*       u in nodes(G)   (u, v) in edges(G)   (u, v, w) in edges(G)            *)
+(*       (_, v) in neigh_edges(u)   (a, b) in zip(A, B)                         *)
+(*       a in union(A, B) / intersection(A, B) / difference(A, B)               *)
 (*   - a row template: terms over the bound names (x_i, x_{i + 1}, x_i_j,      *)
 (*     a * x_i, A[i] * x_i, w * x_u_v, i * x_i), optionally inside an           *)
-(*     aggregation block (sum / min / max / avg over binders), a relation, a    *)
+(*     aggregation block (sum / min / max / avg over binders; prod over data     *)
+(*     factors scaling a variable; all / any / xor over Boolean variables as a   *)
+(*     logic assertion or as a 0/1 term), a relation, a                          *)
 (*     constant, an optional indexed name, and a `for` clause of binders        *)
 (* Envs(bs) is THE meaning of a binder list: the sequence of environments in    *)
 (* iteration order (first binder outermost, later binders may use earlier       *)
@@ -42,6 +46,9 @@ ElemsOf(v, r) == [k |-> "elems", v |-> v, of |-> r]
 NodesB(v) == [k |-> "nodes", v |-> v]
 Edges2(u, v) == [k |-> "edges2", v |-> u, v2 |-> v]
 Edges3(u, v, w) == [k |-> "edges3", v |-> u, v2 |-> v, v3 |-> w]
+Neigh(v, of) == [k |-> "neigh", v |-> v, of |-> of]                                  \* (_, v) in neigh_edges(of)
+Zip(a, b, arr1, arr2) == [k |-> "zip", v |-> a, v2 |-> b, arr |-> arr1, arr2 |-> arr2]
+SetOp(v, fn, arr1, arr2) == [k |-> "setop", v |-> v, fn |-> fn, arr |-> arr1, arr2 |-> arr2]
 RngTo(v, lo, hiname) == [k |-> "rangeto", v |-> v, lo |-> lo, hiname |-> hiname]     \* i in lo..j  (dependent bound)
 
 BinderText(b) ==
@@ -56,6 +63,9 @@ BinderText(b) ==
      [] b.k = "nodes" -> b.v \o " in nodes(G)"
      [] b.k = "edges2" -> "(" \o b.v \o ", " \o b.v2 \o ") in edges(G)"
      [] b.k = "edges3" -> "(" \o b.v \o ", " \o b.v2 \o ", " \o b.v3 \o ") in edges(G)"
+     [] b.k = "neigh" -> "(_, " \o b.v \o ") in neigh_edges(" \o b.of \o ")"
+     [] b.k = "zip" -> "(" \o b.v \o ", " \o b.v2 \o ") in zip(" \o b.arr \o ", " \o b.arr2 \o ")"
+     [] b.k = "setop" -> b.v \o " in " \o b.fn \o "(" \o b.arr \o ", " \o b.arr2 \o ")"
 RECURSIVE JoinS(_, _, _)
 JoinS(s, i, sep) == IF i > Len(s) THEN "" ELSE (IF i > 1 THEN sep ELSE "") \o s[i] \o JoinS(s, i + 1, sep)
 BindersText(bs) == JoinS([i \in 1..Len(bs) |-> BinderText(bs[i])], 1, ", ")
@@ -66,6 +76,15 @@ RangeSeq(lo, hi) == [i \in 1..(IF hi >= lo THEN hi - lo + 1 ELSE 0) |-> lo + i -
 NumB(x) == [n |-> x, s |-> ToString(x), arr |-> <<>>]
 NodeB(nm) == [n |-> 0, s |-> nm, arr |-> <<>>]
 ArrB(a) == [n |-> 0, s |-> "", arr |-> a]
+\* the set functions on arrays: order of first occurrence
+InSeq(x, q) == \E i \in 1..Len(q) : q[i] = x
+RECURSIVE Dedup(_, _)
+Dedup(q, acc) == IF q = <<>> THEN acc ELSE Dedup(Tail(q), IF InSeq(Head(q), acc) THEN acc ELSE Append(acc, Head(q)))
+SetVal(fn, a, b) == CASE fn = "union" -> Dedup(a \o b, <<>>)
+                      [] fn = "intersection" -> SelectSeq(a, LAMBDA x : InSeq(x, b))
+                      [] fn = "difference" -> SelectSeq(a, LAMBDA x : ~InSeq(x, b))
+OutEdges(nm) == SelectSeq(Edges, LAMBDA e : e.u = nm)
+MinOf(a, b) == IF a < b THEN a ELSE b
 Bind(b, env) ==
    CASE b.k = "range" -> [j \in 1..Len(RangeSeq(b.lo, b.hi - 1)) |-> env @@ (b.v :> NumB(RangeSeq(b.lo, b.hi - 1)[j]))]
      [] b.k = "rangei" -> [j \in 1..Len(RangeSeq(b.lo, b.hi)) |-> env @@ (b.v :> NumB(RangeSeq(b.lo, b.hi)[j]))]
@@ -78,6 +97,9 @@ Bind(b, env) ==
      [] b.k = "nodes" -> [j \in 1..Len(Nodes) |-> env @@ (b.v :> NodeB(Nodes[j]))]
      [] b.k = "edges2" -> [j \in 1..Len(Edges) |-> env @@ (b.v :> NodeB(Edges[j].u)) @@ (b.v2 :> NodeB(Edges[j].v))]
      [] b.k = "edges3" -> [j \in 1..Len(Edges) |-> env @@ (b.v :> NodeB(Edges[j].u)) @@ (b.v2 :> NodeB(Edges[j].v)) @@ (b.v3 :> NumB(Edges[j].w))]
+     [] b.k = "neigh" -> LET es == OutEdges(env[b.of].s) IN [j \in 1..Len(es) |-> env @@ (b.v :> NodeB(es[j].v))]
+     [] b.k = "zip" -> [j \in 1..MinOf(Len(ArrOf(b.arr)), Len(ArrOf(b.arr2))) |-> env @@ (b.v :> NumB(ArrOf(b.arr)[j])) @@ (b.v2 :> NumB(ArrOf(b.arr2)[j]))]
+     [] b.k = "setop" -> LET q == SetVal(b.fn, ArrOf(b.arr), ArrOf(b.arr2)) IN [j \in 1..Len(q) |-> env @@ (b.v :> NumB(q[j]))]
 RECURSIVE Flat(_, _)
 Flat(ss, i) == IF i > Len(ss) THEN <<>> ELSE ss[i] \o Flat(ss, i + 1)
 RECURSIVE EnvsFrom(_, _, _)
@@ -95,11 +117,12 @@ IdxText(ix, env) == IF ix.off = 0 THEN env[ix.v].s ELSE ToString(env[ix.v].n + i
 Term(base, ixs, coef) == [base |-> base, ixs |-> ixs, coef |-> coef]
 CoefText(c) == CASE c.k = "one" -> "" [] c.k = "lit" -> ToString(c.n) \o " * " [] c.k = "val" -> c.v \o " * "
                  [] c.k = "acc" -> c.arr \o "[" \o c.v \o "] * "
+FactorText(c) == CASE c.k = "lit" -> ToString(c.n) [] c.k = "val" -> c.v [] c.k = "acc" -> c.arr \o "[" \o c.v \o "]"
 CoefVal(c, env) == CASE c.k = "one" -> 1 [] c.k = "lit" -> c.n [] c.k = "val" -> env[c.v].n [] c.k = "acc" -> ArrOf(c.arr)[env[c.v].n + 1]
 TermText(t) == CoefText(t.coef) \o t.base \o JoinS([i \in 1..Len(t.ixs) |-> IxText(t.ixs[i])], 1, "")
 \* concrete term: [c |-> coefficient, name |-> flattened variable name]
-Concrete(t, env) == [c |-> CoefVal(t.coef, env),
-                     name |-> t.base \o JoinS([i \in 1..Len(t.ixs) |-> "_" \o IdxText(t.ixs[i], env)], 1, "")]
+NameOf(t, env) == t.base \o JoinS([i \in 1..Len(t.ixs) |-> "_" \o IdxText(t.ixs[i], env)], 1, "")
+Concrete(t, env) == [c |-> CoefVal(t.coef, env), name |-> NameOf(t, env)]
 ConcText(ct) == IF ct.c = 1 THEN ct.name ELSE ToString(ct.c) \o " * " \o ct.name
 SumText(cts) == IF Len(cts) = 0 THEN "0" ELSE JoinS([i \in 1..Len(cts) |-> ConcText(cts[i])], 1, " + ")
 
@@ -107,41 +130,56 @@ SumText(cts) == IF Len(cts) = 0 THEN "0" ELSE JoinS([i \in 1..Len(cts) |-> ConcT
 \* [agg |-> "none" | "sum" | "min" | "max" | "avg", inner |-> binders, term, extra |-> optional plain term or <<>>,
 \*  cmp, rhs, named |-> BOOLEAN, nameix |-> index name, for |-> binders]
 CmpText(c) == CASE c = "le" -> "<=" [] c = "ge" -> ">=" [] c = "eq" -> "="
+Logic == {"all", "any", "xor"}
+\* the variable a prod row scales: the term without its coefficient
+BareText(t) == t.base \o JoinS([i \in 1..Len(t.ixs) |-> IxText(t.ixs[i])], 1, "")
 LhsText(r) ==
    (CASE r.agg = "none" -> TermText(r.term)
+      [] r.agg = "prod" -> "prod(" \o BindersText(r.inner) \o ") { " \o FactorText(r.term.coef) \o " } * " \o BareText(r.term)
       [] OTHER -> r.agg \o "(" \o BindersText(r.inner) \o ") { " \o TermText(r.term) \o " }")
    \o (IF r.extra = <<>> THEN "" ELSE " + " \o TermText(r.extra[1]))
 RowText(r) ==
    (IF r.named THEN "c_" \o r.nameix \o ": " ELSE "")
-   \o LhsText(r) \o " " \o CmpText(r.cmp) \o " " \o ToString(r.rhs)
+   \o LhsText(r) \o (IF r.cmp = "assert" THEN "" ELSE " " \o CmpText(r.cmp) \o " " \o ToString(r.rhs))
    \o (IF r.for = <<>> THEN "" ELSE " for " \o BindersText(r.for))
 \* one concrete row per environment of the `for` clause
+\* logic aggregations unrolled by hand: the block form over the listed operands, or (style
+\* "chain") the operator written between them; over nothing: all = true, any = xor = false
+LogicWord(a) == CASE a = "all" -> "and" [] a = "any" -> "or" [] a = "xor" -> "xor"
 AggText(r, cts) ==
    CASE r.agg \in {"none", "sum"} -> SumText(cts)
+     [] r.agg \in Logic ->
+          IF Len(cts) = 0 THEN (IF r.agg = "all" THEN "true" ELSE "false")
+          ELSE IF r.style = "chain" THEN (IF r.extra = <<>> \/ Len(cts) = 1 THEN "" ELSE "(") \o JoinS([i \in 1..Len(cts) |-> cts[i].name], 1, " " \o LogicWord(r.agg) \o " ")
+                                         \o (IF r.extra = <<>> \/ Len(cts) = 1 THEN "" ELSE ")")
+          ELSE r.agg \o " { " \o JoinS([i \in 1..Len(cts) |-> cts[i].name], 1, ", ") \o " }"
      [] r.agg \in {"min", "max"} -> r.agg \o " { " \o JoinS([i \in 1..Len(cts) |-> ConcText(cts[i])], 1, ", ") \o " }"
      [] r.agg = "avg" -> "(" \o SumText(cts) \o ") / " \o ToString(Len(cts))
 ConcreteRowText(r, env) ==
    LET inner == IF r.agg = "none" THEN <<env>> ELSE Envs(r.inner, env)
-       cts == [j \in 1..Len(inner) |-> Concrete(r.term, inner[j])]
+       cts == IF r.agg = "prod" THEN <<>> ELSE [j \in 1..Len(inner) |-> Concrete(r.term, inner[j])]
+       \* a product of data factors scaling the variable: the factors in iteration order, then the variable
+       prodtext == JoinS([j \in 1..Len(inner) |-> ToString(CoefVal(r.term.coef, inner[j])) \o " * "], 1, "")
+                   \o (IF Len(inner) = 0 THEN "1 * " ELSE "") \o NameOf(r.term, env)
    IN  (IF r.named THEN "c_" \o env[r.nameix].s \o ": " ELSE "")
-       \o AggText(r, cts)
+       \o (IF r.agg = "prod" THEN prodtext ELSE AggText(r, cts))
        \o (IF r.extra = <<>> THEN "" ELSE " + " \o ConcText(Concrete(r.extra[1], env)))
-       \o " " \o CmpText(r.cmp) \o " " \o ToString(r.rhs)
+       \o (IF r.cmp = "assert" THEN "" ELSE " " \o CmpText(r.cmp) \o " " \o ToString(r.rhs))
 Unroll(r) == LET es == Envs(r.for, <<>>) IN [j \in 1..Len(es) |-> ConcreteRowText(r, es[j])]
 \* an aggregation over no elements has no meaning for min / max / avg: such rows are not generated
 InnerCounts(r) == LET es == Envs(r.for, <<>>) IN {Len(Envs(r.inner, es[j])) : j \in 1..Len(es)}
-Meaningful(r) == r.agg \in {"none", "sum"} \/ 0 \notin InnerCounts(r)
+Meaningful(r) == r.agg \in {"none", "sum", "prod"} \cup Logic \/ 0 \notin InnerCounts(r)
 
 \* ---- declarations ---------------------------------------------------------------
 \* variable families are declared over index domains that cover every use; the unrolled
 \* program declares each name explicitly (in the same order)
-DeclProg == "    x_i as Boolean for i in 0..5\n" \o
-            "    y_i_j as IntegerRange(0, 3) for i in 0..5, j in 0..5\n" \o
+DeclProg == "    x_i as Boolean for i in 0..6\n" \o
+            "    y_i_j as IntegerRange(0, 3) for i in 0..6, j in 0..6\n" \o
             "    z_u as NonNegativeReal(0, 9) for u in nodes(G)\n" \o
             "    f_u_v as Real(-2, 4) for (u, v) in edges(G)"
 DeclUnrolled ==
-   "    " \o JoinS([i \in 1..5 |-> "x_" \o ToString(i - 1)], 1, ", ") \o " as Boolean\n" \o
-   "    " \o JoinS(Flat([i \in 1..5 |-> [j \in 1..5 |-> "y_" \o ToString(i - 1) \o "_" \o ToString(j - 1)]], 1), 1, ", ") \o " as IntegerRange(0, 3)\n" \o
+   "    " \o JoinS([i \in 1..6 |-> "x_" \o ToString(i - 1)], 1, ", ") \o " as Boolean\n" \o
+   "    " \o JoinS(Flat([i \in 1..6 |-> [j \in 1..6 |-> "y_" \o ToString(i - 1) \o "_" \o ToString(j - 1)]], 1), 1, ", ") \o " as IntegerRange(0, 3)\n" \o
    "    z_N1, z_N2, z_N3 as NonNegativeReal(0, 9)\n" \o
    "    f_N1_N2, f_N1_N3, f_N2_N3 as Real(-2, 4)"
 
@@ -151,7 +189,8 @@ Lit(n) == [k |-> "lit", n |-> n]
 Val(v) == [k |-> "val", v |-> v]
 Acc(arr, v) == [k |-> "acc", arr |-> arr, v |-> v]
 Row(agg, inner, term, extra, cmp, rhs, named, nameix, for) ==
-   [agg |-> agg, inner |-> inner, term |-> term, extra |-> extra, cmp |-> cmp, rhs |-> rhs, named |-> named, nameix |-> nameix, for |-> for]
+   [agg |-> agg, inner |-> inner, term |-> term, extra |-> extra, cmp |-> cmp, rhs |-> rhs, named |-> named, nameix |-> nameix, for |-> for, style |-> "block"]
+Chain(r) == [r EXCEPT !.style = "chain"]
 NumBinders == {Rng("i", 0, 3), Rng("i", 1, 1), RngI("i", 0, 2), RngI("i", 2, 1), LenR("i", "A1"), LenR("i", "E0"), InArr("i", "A1"), Rng("i", 2, 4)}
 \* rows over one numeric index i
 TermsI == {Term("x", <<Ix("i", 0)>>, One), Term("x", <<Ix("i", 1)>>, One), Term("x", <<Ix("i", 0)>>, Val("i")), Term("x", <<Ix("i", 0)>>, Lit(2))}
@@ -177,10 +216,37 @@ RowsGraph == {Row(a, <<NodesB("u")>>, Term("z", <<Ix("u", 0)>>, One), <<>>, c, 2
              \cup {Row("sum", <<Edges3("u", "v", "w")>>, Term("f", <<Ix("u", 0), Ix("v", 0)>>, Val("w")), <<>>, c, 6, FALSE, "u", <<>>) : c \in {"le", "ge"}}
              \cup {Row("none", <<>>, Term("f", <<Ix("u", 0), Ix("v", 0)>>, cf), <<Term("z", <<Ix("u", 0)>>, One)>>, "le", 4, FALSE, "u", <<Edges3("u", "v", "w")>>) : cf \in {One, Val("w")}}
              \cup {Row("none", <<>>, Term("f", <<Ix("u", 0), Ix("v", 0)>>, One), <<Term("z", <<Ix("v", 0)>>, Lit(2))>>, "ge", 0, TRUE, "u", <<Edges2("u", "v")>>)}
-RowSet == CASE Family = "one" -> RowsFor1 \cup RowsSum1
+\* products of data factors (prod over ranges incl. dependent and empty ones, array values, accesses)
+ProdInner == {<<RngTo("j", 0, "i"), Acc("A1", "j")>>, <<RngTo("j", 1, "i"), Val("j")>>, <<InArr("a", "A1"), Val("a")>>, <<InArr("a", "E0"), Val("a")>>,
+              <<LenR("j", "W2"), Acc("W2", "j")>>, <<Rng("j", 1, 1), Lit(2)>>, <<RngI("j", 0, 2), Lit(2)>>, <<Zip("a", "b", "A1", "W2"), Val("b")>>}
+RowsProd == {Row("prod", <<pi[1]>>, Term("x", <<Ix("i", 0)>>, pi[2]), <<>>, c, rhs, n, "i", <<bi>>)
+               : pi \in ProdInner, c \in {"le", "ge"}, rhs \in {0, 1, 10}, n \in BOOLEAN, bi \in {Rng("i", 0, 4), RngI("i", 1, 2), Rng("i", 2, 2)}}
+\* logic aggregations over Boolean variables: assertion rows and 0/1 terms, block and chain twins
+LogicInner == {Rng("j", 0, 3), RngTo("j", 0, "i"), RngI("j", 1, 1), Rng("j", 2, 2), LenR("j", "W2"), InArr("j", "A1"), SetOp("j", "difference", "A1", "W2")}
+RowsLogicBase == {Row(a, <<bj>>, Term("x", <<Ix("j", 0)>>, One), <<>>, "assert", 0, n, "i", <<bi>>)
+                    : a \in Logic, bj \in LogicInner, n \in BOOLEAN, bi \in {Rng("i", 0, 3), RngI("i", 2, 2)}}
+                 \cup {Row(a, <<bj>>, Term("x", <<Ix("j", 0)>>, One), <<Term("x", <<Ix("i", 1)>>, One)>>, c, 1, FALSE, "i", <<bi>>)
+                    : a \in Logic, bj \in LogicInner, c \in {"ge", "le"}, bi \in {Rng("i", 0, 3), RngI("i", 2, 2)}}
+RowsLogic == RowsLogicBase \cup {Chain(r) : r \in RowsLogicBase}
+\* zip, set functions, neighbours
+RowsSets == {Row(a, <<SetOp("e", fn, a1, a2)>>, Term("x", <<Ix("e", 0)>>, cf), <<>>, "le", 8, FALSE, "i", <<>>)
+               : a \in {"sum", "max"}, fn \in {"union", "intersection", "difference"}, a1 \in {"A1", "W2", "E0"}, a2 \in {"A1", "W2", "E0"}, cf \in {One, Val("e")}}
+            \cup {Row("none", <<>>, Term("x", <<Ix("e", 0)>>, Val("e")), <<>>, "ge", 0, n, "e", <<SetOp("e", fn, a1, a2)>>)
+               : fn \in {"union", "intersection", "difference"}, a1 \in {"A1", "W2"}, a2 \in {"A1", "W2", "E0"}, n \in BOOLEAN}
+            \cup {Row(a, <<Zip("a", "b", a1, a2)>>, Term("x", <<Ix("a", 0)>>, Val("b")), <<>>, "le", 8, FALSE, "i", <<>>)
+               : a \in {"sum", "min"}, a1 \in {"A1", "W2"}, a2 \in {"A1", "W2"}}
+            \cup {Row("none", <<>>, Term("y", <<Ix("a", 0), Ix("b", 0)>>, Val("a")), <<>>, "le", 6, n, "a", <<Zip("a", "b", a1, a2)>>)
+               : a1 \in {"A1", "W2", "E0"}, a2 \in {"A1", "W2"}, n \in BOOLEAN}
+RowsNeigh == {Row(a, <<Neigh("v", "u")>>, Term("z", <<Ix("v", 0)>>, One), <<Term("z", <<Ix("u", 0)>>, One)>>, c, 1, n, "u", <<NodesB("u")>>)
+               : a \in {"sum"}, c \in {"ge", "le"}, n \in BOOLEAN}
+             \cup {Row("none", <<>>, Term("f", <<Ix("u", 0), Ix("v", 0)>>, One), <<>>, "le", 2, FALSE, "u", <<NodesB("u"), Neigh("v", "u")>>)}
+RowSet == CASE Family = "prod" -> RowsProd
+            [] Family = "logic" -> RowsLogic
+            [] Family = "sets" -> RowsSets \cup RowsNeigh
+            [] Family = "one" -> RowsFor1 \cup RowsSum1
             [] Family = "enum" -> RowsEnum \cup RowsTwo
             [] Family = "graph" -> RowsGraph
-            [] OTHER -> RowsFor1 \cup RowsSum1 \cup RowsEnum \cup RowsTwo \cup RowsGraph
+            [] OTHER -> RowsFor1 \cup RowsSum1 \cup RowsEnum \cup RowsTwo \cup RowsGraph \cup RowsProd \cup RowsLogic \cup RowsSets \cup RowsNeigh
 
 \* ---- the machine -----------------------------------------------------------------
 \* a program = an objective row template (aggregated) + up to MaxRows row templates
